@@ -373,3 +373,163 @@ func H_C09_generator_return() {
 		vAssert("return:uncatchable-propagates", out.panicked && out.panicVal == interface{}(w.unc))
 	}
 }
+
+// ---------------------------------------------------------------------
+// H09.3: the yield* driver (generatorObject.next with a delegate) against the spec's yield* loop, with
+// the generator body stubbed: next()/throw() of the body return an arbitrary (value, kind, exception).
+
+type vDelegWorld struct {
+	r          *Runtime
+	gobj       *generatorObject
+	d1, d2     *iteratorRecord
+	d1Beh      int // delegate next(): 0 {done:false}, 1 {done:true}, 2 throws
+	d2Calls    int
+	d1Calls    int
+	d1Res      *Object
+	d2Res      *Object
+	d1Thrown   Value
+	bodyBeh    int // body outcome when resumed: 0 yield, 1 yield* (new delegate), 2 return, 3 throw
+	bodyNext   int // calls of generator.next
+	bodyThrow  int // calls of generator.nextThrow
+	bodySent   Value
+	bodyThrown interface{}
+	bodyErr    *Exception
+}
+
+var vCurDeleg *vDelegWorld
+
+func vNewIterResult(r *Runtime, done bool, value Value) *Object {
+	o := &Object{runtime: r}
+	b := &baseObject{val: o, class: classObject, extensible: true}
+	o.self = b
+	b.init()
+	b.values["done"] = valueBool(done)
+	b.values["value"] = value
+	b.propNames = append(b.propNames, "done", "value")
+	return o
+}
+
+func (w *vDelegWorld) body() (Value, resultType, *Exception) {
+	switch w.bodyBeh {
+	case 0:
+		return valueInt(11), resultYield, nil
+	case 1:
+		return valueInt(12), resultYieldDelegate, nil // the operand of the new yield*
+	case 2:
+		return valueInt(13), resultNormal, nil
+	}
+	w.bodyErr = &Exception{val: valueInt(14)}
+	return nil, resultNormal, w.bodyErr
+}
+
+func vStubGenNext(g *generator, v Value) (Value, resultType, *Exception) {
+	w := vCurDeleg
+	w.bodyNext++
+	w.bodySent = v
+	return w.body()
+}
+
+func vStubGenNextThrow(g *generator, v interface{}) (Value, resultType, *Exception) {
+	w := vCurDeleg
+	w.bodyThrow++
+	w.bodyThrown = v
+	return w.body()
+}
+
+func vStubGetIterator(r *Runtime, obj Value, method func(FunctionCall) Value) *iteratorRecord {
+	return vCurDeleg.d2
+}
+
+func H_C09_yieldStar_next() {
+	w := &vDelegWorld{r: vRuntime()}
+	vCurDeleg = w
+	vIterResults = nil
+	m := &vm{r: w.r}
+	w.r.vm = m
+	m.stack = make(valueStack, 8)
+	m.maxCallStackSize = 1 << 30
+	w.d1Beh = vChoice("delegate.next", 3)
+	w.bodyBeh = vChoice("body", 4)
+	yieldRes := vChoice("state.yieldRes", 2) == 1
+	w.d1Thrown = valueInt(21)
+	it1 := &Object{runtime: w.r}
+	it2 := &Object{runtime: w.r}
+	w.d1Res = vNewIterResult(w.r, w.d1Beh == 1, valueInt(31))
+	w.d2Res = vNewIterResult(w.r, false, valueInt(32))
+	w.d1 = &iteratorRecord{iterator: it1, next: func(FunctionCall) Value {
+		w.d1Calls++
+		if w.d1Beh == 2 {
+			panic(w.d1Thrown)
+		}
+		return w.d1Res
+	}}
+	w.d2 = &iteratorRecord{iterator: it2, next: func(FunctionCall) Value {
+		w.d2Calls++
+		return w.d2Res
+	}}
+	g := &generatorObject{baseObject: baseObject{val: &Object{runtime: w.r}, extensible: true}}
+	g.val.self = g
+	g.gen.vm = m
+	g.delegated = w.d1
+	g.state = genStateSuspendedYield
+	if yieldRes {
+		g.state = genStateSuspendedYieldRes
+	}
+	w.gobj = g
+	sent := valueInt(41)
+	var res Value
+	var out vOutcome
+	var thrown interface{}
+	func() {
+		defer func() {
+			if x := recover(); x != nil {
+				if _, isAssume := x.(vAssumeFailedMarker); isAssume {
+					panic(x)
+				}
+				out.panicked = true
+				thrown = x
+			}
+		}()
+		res = g.next(sent)
+	}()
+	vAssert("delegate.next-called-once", w.d1Calls == 1)
+	switch w.d1Beh {
+	case 0:
+		// inner result not done: handed out as is, nothing else happens
+		vAssert("notdone:result-is-inner-result", !out.panicked && res == Value(w.d1Res))
+		vAssert("notdone:body-not-resumed", w.bodyNext == 0 && w.bodyThrow == 0)
+		vAssert("notdone:still-delegating", g.delegated == w.d1)
+		return
+	case 1:
+		// inner done: the body is resumed with the inner value (as the value of the yield* expression)
+		vAssert("done:body-resumed-once", w.bodyNext == 1 && w.bodyThrow == 0)
+		if yieldRes {
+			vAssert("done:value-of-yield*", w.bodySent == valueInt(31))
+		}
+	default:
+		// inner throws: the exception is thrown into the body at the yield*
+		vAssert("throw:body-gets-exception-once", w.bodyThrow == 1 && w.bodyNext == 0)
+		ex, isEx := w.bodyThrown.(*Exception)
+		vAssert("throw:same-value", isEx && ex.val == w.d1Thrown)
+	}
+	// what the body does next
+	switch w.bodyBeh {
+	case 0:
+		rv, rdone, rok := vIterResultOf(res)
+		vAssert("body.yield:result", !out.panicked && rok && !rdone && rv == valueInt(11))
+		vAssert("body.yield:no-delegate", g.delegated == nil)
+		vAssert("body.yield:suspended", g.state == genStateSuspendedYield)
+	case 1:
+		// a new yield*: the new delegate is installed and asked for its first result
+		vAssert("body.yield*:new-delegate-installed", g.delegated == w.d2)
+		vAssert("body.yield*:new-delegate-stepped-once", w.d2Calls == 1)
+		vAssert("body.yield*:result-is-new-inner-result", !out.panicked && res == Value(w.d2Res))
+	case 2:
+		rv, rdone, rok := vIterResultOf(res)
+		vAssert("body.return:result", !out.panicked && rok && rdone && rv == valueInt(13))
+		vAssert("body.return:completed", g.state == genStateCompleted && g.delegated == nil)
+	default:
+		vAssert("body.throw:propagates", out.panicked && thrown == interface{}(w.bodyErr))
+		vAssert("body.throw:completed", g.state == genStateCompleted && g.delegated == nil)
+	}
+}
